@@ -6,6 +6,7 @@ import (
 	"fmt"
 	"os"
 	"strings"
+	"sync/atomic"
 	"time"
 
 	header "github.com/celestiaorg/go-header"
@@ -30,7 +31,7 @@ type syncRun struct {
 	sub         *nopSub
 	// getter script: per range request (in order): "ok" | "prefix:k" | "err" | "empty" | "shift" ; then honest
 	script []string
-	nreq   int
+	nreq   atomic.Int64
 	holdCh chan struct{}
 }
 
@@ -44,10 +45,10 @@ func newSyncRun(storeTo int) *syncRun {
 	r.g = &scriptGetter{chain: r.chain}
 	r.g.rangeFn = func(from *vhdr.Header, to uint64) ([]*vhdr.Header, error) {
 		b := "ok"
-		if r.nreq < len(r.script) {
-			b = r.script[r.nreq]
+		k := int(r.nreq.Add(1)) - 1
+		if k < len(r.script) {
+			b = r.script[k]
 		}
-		r.nreq++
 		if to > sN+1 {
 			to = sN + 1
 		}
@@ -92,7 +93,7 @@ func (r *syncRun) quiesce() {
 		if h, err := r.st.Head(ctx); err == nil {
 			hd = h.H
 		}
-		cur := fmt.Sprintf("%d/%v/%d", hd, r.s.VerifPendingHeights(), len(r.g.log))
+		cur := fmt.Sprintf("%d/%v/%d", hd, r.s.VerifPendingHeights(), r.g.logLen())
 		if cur == last {
 			stable++
 		} else {
@@ -307,7 +308,7 @@ func burstCase(prop string, heads []int) {
 		verdicts = append(verdicts, run.gossip("valid", h))
 		if i == 0 {
 			// wait until the sync loop sits in the held range request
-			for k := 0; k < 200 && run.nreq == 0; k++ {
+			for k := 0; k < 200 && run.nreq.Load() == 0; k++ {
 				time.Sleep(time.Millisecond)
 			}
 		}
